@@ -555,6 +555,14 @@ def inline_reaching(cfg: CFG, at: ast.AST, expr: ast.AST, depth: int = 0, compre
                 value = stmt.value
             if value is None:
                 return node
+            # a container mutated in place between its definition and the use is not its defining expression any more
+            d = next(iter(defs))
+            between = cfg.reach([d], avoid=[here])
+            for nid in between:
+                other = cfg.nodes[nid].ast
+                if other is not None and nid != d and cfg.nodes[nid].kind != "test" and node.id in mutated_names(other) \
+                        and here in cfg.reach([nid]):
+                    return node
             return inline_reaching(cfg, stmt, value, depth + 1, frozenset(self.bound), keep, max_depth)
     return ast.fix_missing_locations(Inliner().visit(clone(expr)))
 
